@@ -79,6 +79,7 @@ public:
   void set_chunk(int walker, size_t chunk);
   void arm_faults(int walker, std::vector<FsFault> const &f);
   std::vector<FsFault> disarm_faults(int walker);
+  void arm_faults_keep(int walker, std::vector<FsFault> const &f) { faults_[walker] = f; }   // keeps run-time counters
   bool is_dead(int walker) const;
   void set_dead(int walker, bool d);
 
